@@ -134,7 +134,10 @@ def run_replay_program(kind, vals, repo):
         os.makedirs(os.path.join(d, 'rp', 'src'))
         open(os.path.join(d, 'rp', 'Cargo.toml'), 'w').write(
             '[package]\nname = "rp"\nversion = "0.0.0"\nedition = "2018"\n[dependencies]\nlber = { path = "../lber" }\nbytes = "1"\n[workspace]\n')
-        shutil.copy(os.path.join(repo, 'Cargo.lock'), os.path.join(d, 'rp', 'Cargo.lock'))
+        for cand in (os.path.join(repo, 'Cargo.lock'), '/repo/Cargo.lock'):
+            if os.path.exists(cand):
+                shutil.copy(cand, os.path.join(d, 'rp', 'Cargo.lock'))
+                break
         open(os.path.join(d, 'rp', 'src', 'main.rs'), 'w').write(src)
         p = subprocess.run(['cargo', 'run', '--offline', '-q'], cwd=os.path.join(d, 'rp'), stdout=subprocess.PIPE,
                            stderr=subprocess.STDOUT, text=True, timeout=600, env=dict(os.environ, CARGO_NET_OFFLINE='true'))
